@@ -59,6 +59,14 @@ func NewSyncCommitteePool(spec *common.Spec) *SyncCommitteePool {
 	return &SyncCommitteePool{
 		spec:        spec,
 		currentSlot: ^common.Slot(0),
+
+		prevContribs:    make(SyncCommitteeContributions),
+		currentContribs: make(SyncCommitteeContributions),
+		nextContribs:    make(SyncCommitteeContributions),
+
+		prevMsgs:    make(SyncCommitteeMessages, spec.SYNC_COMMITTEE_SIZE),
+		currentMsgs: make(SyncCommitteeMessages, spec.SYNC_COMMITTEE_SIZE),
+		nextMsgs:    make(SyncCommitteeMessages, spec.SYNC_COMMITTEE_SIZE),
 	}
 }
 
